@@ -1,12 +1,12 @@
 """Developer entry: verify one or more contracts and print obligations."""
 import sys, importlib
 sys.path.insert(0, '/verif')
-import contracts.signatures, contracts.history, contracts.config, contracts.building, contracts.daglish
+import contracts.signatures, contracts.history, contracts.config, contracts.building, contracts.daglish, contracts.selectors, contracts.diffing
 from pyvc import contract as C, verify, loader
 for c in C.REGISTRY.values():
   if not c.abstract:
     loader.bind_ast(c)
-ids = sys.argv[1:] or [c for c in C.REGISTRY if C.REGISTRY[c].kind == 'contract']
+ids = sys.argv[1:] or [c for c in C.REGISTRY if C.REGISTRY[c].kind == 'contract' and not C.REGISTRY[c].abstract]
 for cid in ids:
   r = verify.verify_function(cid)
   print(r.summary())
